@@ -43,7 +43,7 @@ def oracle(case):
             classes.append(k)
     if not any(k.startswith("notification") for k in exp.kinds):
         classes.append("no-notification")
-    return Info(nt=nt, classes=classes, key=(text, case["version"], case["jsonclass"], case["mode"]),
+    return Info(nt=nt, classes=classes, key=(text, case["version"], case["jsonclass"], case["mode"], case.get("handlers")),
                 sample={"body": text[:300], "version": case["version"], "mode": case["mode"], "reply": (out or "")[:200]})
 
 
